@@ -280,4 +280,52 @@ def run_module_validity(res, tier, sc, drv):
             if v.get("error"):
                 res.violation("emitted WebAssembly module of %s is invalid (%s): %s" % (name, vf, v["error"]),
                               {"program": name, "modules": mods, "wasmparser": v["error"], "defined_function_index": v.get("defined_function_index")})
+    # programs behind listed known findings: reported as KNOWN-FINDING while they still fail, silently fine once repaired
+    from vlib.common import load_known
+    known = {k.get("program"): k for k in load_known("C03") if k.get("program")}
+    for rel, k in known.items():
+        path = os.path.join(VERIF, rel)
+        name = os.path.splitext(os.path.basename(path))[0]
+        p = drv.call(["compile", os.path.join(outroot, "known_" + name), name, "%s=%s" % (name, path)], check=False, timeout=300)
+        st_ = ""
+        try:
+            st_ = json.loads(p.stdout.strip().split("\n")[-1]).get("status")
+        except Exception:
+            st_ = "driver-error"
+        checked.append({"program": rel, "status": st_, "known_finding": k.get("id")})
+        if st_ == "panic":
+            res.known("%s the compiler panics on the accepted program %s (Map.union of std/map.sam)" % (k.get("id"), rel))
     return {"modules_validated": checked}
+
+
+def run_lirwat(res, tier, sc, drv):
+    """C04: the TypeScript back end prints the LIR, the WebAssembly back end lowers it: every LIR function is compared
+    with the WAT function generated from it (same observables for all arguments within the bounds)."""
+    outroot = os.path.join(sc.root, "et")
+    fb = QUICK_BOUNDS if tier == "quick" else THOROUGH_BOUNDS
+    jobs = []
+    programs = []
+    for name, mods in corpus(sc, tier):
+        if tier == "quick" and name == "repo-tests":
+            continue
+        od = os.path.join(outroot, name)
+        p = drv.call(["dump", od, "11111,00000"] + mods, check=False, timeout=600)
+        if '"status":"ok"' not in p.stdout:
+            raise Inconclusive("corpus program %s is not accepted: %s" % (name, p.stdout[:300]))
+        programs.append(name)
+        jobs.append((name, os.path.join(od, "lir.json"), os.path.join(od, "all.wat"), "lirwat", fb, None))
+        jobs.append((name, os.path.join(od, "lir_00000.json"), os.path.join(od, "all_00000.wat"), "lirwat", fb, None))
+    stats = {"functions_compared": 0, "equal": 0, "different": 0, "skipped": 0, "pairs": 0, "vec_i31_boxing_sites": 0}
+    with concurrent.futures.ProcessPoolExecutor(max_workers=min(14, max(1, len(jobs)))) as ex:
+        for (prog, fa, fb_, mode, out, _) in ex.map(_compare_one, jobs):
+            for r in out:
+                stats["functions_compared"] += 1
+                stats[r["status"]] = stats.get(r["status"], 0) + 1
+                stats["pairs"] += r.get("pairs", 0)
+                stats["vec_i31_boxing_sites"] += r.get("vec_i31_boxing", 0)
+                if r["status"] == "different":
+                    res.violation("%s: %s behaves differently in the TypeScript (LIR) and WebAssembly back ends: %s" % (prog, r["fn"], r.get("why")),
+                                  {"program": prog, "function": r["fn"], "lir": fa, "wat": fb_, **{k: v for k, v in r.items() if k != "fn"}})
+                elif r["status"] in ("error", "inconclusive"):
+                    res.inconc("%s/%s: %s" % (prog, r["fn"], str(r.get("why"))[-300:]))
+    return {"backend_programs": programs, "backend_functions": stats}
